@@ -134,6 +134,16 @@ func checkC08(w *World, r *Report) {
 							case "dq":
 								return dq, true
 							}
+							// any other test of the token's kind, the token being a string
+							if a.subj != "" {
+								if bo, ok := a.v.(*ssa.BinOp); ok {
+									for _, side := range []ssa.Value{bo.X, bo.Y} {
+										if loadedFieldName(side) == "typ" {
+											return a.set.contains(itemString), true
+										}
+									}
+								}
+							}
 							return false, false
 						}
 						if reached, decided := pcEvalFree(cond, model); decided && !reached {
